@@ -6,10 +6,11 @@ CONSTANTS
   MaxPings = 1
   PingFirst = FALSE
   NoRaces = FALSE
+  ServerCuts = FALSE
   Slow = {"c1"}
   EmitEdges = FALSE
 SPECIFICATION Spec
 VIEW View
 INVARIANTS TypeOK RegistryExact NoPanic BroadcasterNeverBlocks OthersUnaffected NoLeak SpawnedAreTargets DeliveredAtQuiescence
-PROPERTIES Delivered DeliveredDespiteStalledClient SendReturns NoLeakLive
+PROPERTIES LiveClientStaysRegistered Delivered DeliveredDespiteStalledClient SendReturns NoLeakLive
 CHECK_DEADLOCK FALSE
